@@ -483,14 +483,18 @@ static inline int
 reg_range_touches(RegisterEntry *e, RegisterAddress addr, RegisterOffset n)
 {
     /* Return -1 if entry is below range; 0 if it is within the range and 1 if
-     * it is above the range */
+     * it is above the range.
+     *
+     * Distances are compared instead of end addresses: the end (address + size
+     * or addr + n) of an entry or a range that reaches the top of the address
+     * space is not representable and would wrap around to zero. */
     const RegisterOffset size = rds_size[e->type];
 
-    if ((e->address + size) <= addr) {
+    if ((addr >= e->address) && ((addr - e->address) >= size)) {
         return -1;
     }
 
-    if ((addr + n) <= e->address) {
+    if ((e->address >= addr) && ((e->address - addr) >= n)) {
         return 1;
     }
 
